@@ -14,7 +14,7 @@ K_IDENT, K_PUNCT, K_LIT, K_GROUP = 0, 1, 2, 3
 MODE = {"C16": 1, "C18": 2}
 ENVN = lambda k, d: int(os.environ.get(k, d))
 # validator runs per tier: (token trees, what, alphabet): `both` = stubs on every spacing + oracle on the C16 domain; `oracle` = oracle only (pruned to the domain)
-VALIDATE = {"C16": {"quick": [("5", "both"), ("6", "oracle"), ("7", "oracle", "reduced")], "thorough": [("6", "both"), ("7", "oracle"), ("9", "oracle", "reduced")]},
+VALIDATE = {"C16": {"quick": [("5", "both"), ("6", "oracle"), ("7", "oracle", "reduced")], "thorough": [("6", "both"), ("7", "oracle"), ("8", "oracle", "reduced")]},
             "C18": {"quick": [("5", "shim")], "thorough": [("6", "shim")]}}
 ALPHABET_TEXT = ("identifier `a`; keyword `as`; literal `1`; groups `(a, a)` `[a, a]` `{ a }` (opaque); punctuation , < > : | = - & . ! "
                  "each with Alone and with Joint spacing (so every multi-character operator they form: :: || && == != <= >= << >> <<= >>= -= &= |= "
@@ -109,6 +109,8 @@ TEMPLATES = [
     "a s a < ? , a >", "a s a :: < ? , a >", "a s a < a , ? >",
     # closure parameter lists do not split
     "| a , ? | ? a", "| a , ? | ? ? a", "| ? , a | a , a", "a , | a , ? | a",
+    # ... wherever the closure stands in its argument (`&|a, b| ..`, `move |a, b| ..` is spelled with an identifier hole)
+    "? | a , a | a", "? ? | a , a | a", "a , ? | a , a | a , a", "a = ? | a , a | a",
     # followed / preceded by other arguments, behind an alias
     "a :: < ? , a > g , a", "a , a :: < ? , a > g", "a = a :: < ? , a > g", "a = a , a :: < ? , a > g , ?",
     "a :: < ? , a > g , a = a", "< a s a < ? , a > > :: a , a",
